@@ -18,6 +18,7 @@ import (
 	"errors"
 	"fmt"
 	"math/rand"
+	"os"
 	"runtime"
 	"sort"
 	"strings"
@@ -802,6 +803,14 @@ func Run(t *tr.W, thorough bool) {
 	tr.MaxHangs = 8
 	base0 = runtime.NumGoroutine()
 	budget := tr.EnvInt("VERIF_BUDGET", 1)
+	if os.Getenv("VERIF_SEARCH") != "" {
+		// bin/check's search pass after a broken tie: never more than three quick runs, whatever
+		// the tier (a harmless rewrite that breaks a source fact must not cost minutes)
+		thorough = false
+		if budget > 3 {
+			budget = 3
+		}
+	}
 	r := tr.Rng(15)
 	nseq, ntick, nparse := 400, 6, 600
 	if thorough {
